@@ -136,9 +136,24 @@ pub fn gen_program(prop: &str, seed: u64, index: u64) -> Program {
         next_val += 1;
         next_val
     };
+    // mostly unique values (each read is attributable to one write); a quarter of the sets and half of
+    // the conditional sets draw from {1, 2, 3} instead, so that equal values meet (set_if_not_eq
+    // racing with a writer that stores the same value)
     let writer_op = |g: &mut Gen, val: &mut dyn FnMut(&mut Gen) -> u64| match g.below(12) {
-        0..=3 => Op::Set(val(g)),
-        4 => Op::SetIfNotEq(val(g)),
+        0..=3 => {
+            if g.chance(1, 4) {
+                Op::Set(1 + g.below(3) as u64)
+            } else {
+                Op::Set(val(g))
+            }
+        }
+        4 => {
+            if g.chance(1, 2) {
+                Op::SetIfNotEq(1 + g.below(3) as u64)
+            } else {
+                Op::SetIfNotEq(val(g))
+            }
+        }
         5 => Op::Take,
         6 | 7 => Op::Update(1 + g.below(5) as u64),
         8 => Op::UpdateIf(1 + g.below(5) as u64, g.chance(1, 2)),
